@@ -356,9 +356,10 @@ def parse_file(text, src_root=None):
             i = _parse_body(lines, i + 1, fn)
             fns[name] = fn
             continue
-        m = re.match(r"^(const|static|static mut) (.+?): (.+) = \{$", ln)
+        masked = re.sub(r"<impl at [^>]*>", lambda mm: mm.group(0).replace(": ", ":\x00"), ln) if ln.startswith(("const ", "static ")) else ln
+        m = re.match(r"^(const|static|static mut) (.+?): (.+) = \{$", masked)
         if m:
-            fn = Fn(m.group(2), [], m.group(3), kind="static" if m.group(1).startswith("static") else "const")
+            fn = Fn(m.group(2).replace(":\x00", ": "), [], m.group(3), kind="static" if m.group(1).startswith("static") else "const")
             i = _parse_body(lines, i + 1, fn)
             fns[fn.name] = fn
             continue
